@@ -40,7 +40,7 @@ def run (op : String) (a : Json) : Option (Except String Json) :=
   | "dict.best" => some do
       let keys ← dList dStr (field a "keys")
       let cands ← dList dCand (field a "cands")
-      pure <| match bindBest keys cands with
+      pure <| match bindBest (dCfg (field a "config")) keys cands with
         | .ok c => ok (jStr c)
         | .error e => jErr e
   | "dict.bestcfg" => some do
